@@ -3,3 +3,4 @@ From Coq Require Import String List Bool.
 From V9 Require Import Gen.Shape Shape.ShapeLib.
 
 Lemma version_negotiation_ok : version_negotiation = true.        Proof. vm_compute. reflexivity. Qed.
+Lemma version_cancels_whole_groups_ok : version_cancels_whole_groups = true.   Proof. vm_compute. reflexivity. Qed.
